@@ -7,6 +7,7 @@ both on the same generated states.
 """
 import collections
 
+from ..machine import UnknownSlot
 from .. import boot, run, diff, gen, progcheck, staticrun
 from ..cref import show, operands_closure, CParseError
 from ..il import reader, static
@@ -82,6 +83,9 @@ def compare_subject(p, cs, resolvers, subinfo, key, parts, nstates, seed, subs):
                     outs[fmt], _ = diff.run_il(body, stt, resolvers[fmt], literal_banks=True)
                 except diff.Discard as e:
                     err[fmt] = "discard:" + e.why
+                except UnknownSlot as e:
+                    # a resource the machine model does not have (e.g. a write to the PC alias): not executable here
+                    err[fmt] = "discard:unmodelled resource " + str(e)
                 except ILError as e:
                     err[fmt] = "ilerror:" + type(e).__name__
             if any(v.startswith("discard") for v in err.values()):
